@@ -4,7 +4,6 @@ package main
 // criticality.
 
 import (
-	"fmt"
 	"go/ast"
 	"sort"
 	"strings"
@@ -200,12 +199,7 @@ func checkC13(c *Check) {
 		if pg == nil {
 			continue
 		}
-		req := ""
-		for i, v := range pg.G.Params {
-			if strings.HasSuffix(c.P.typeStr(v.Typ), "signature.SignRequest") {
-				req = fmt.Sprintf("p%d", i)
-			}
-		}
+		req := paramOfType(pg, "signature.SignRequest")
 		X := req + ".ExtendedSignedAttributes"
 		el := "re(" + X + ")"
 		isKeyAppend := LP{Desc: "append request key to crit", F: func(l Label) bool {
